@@ -48,8 +48,14 @@ def run(ck: Check) -> int:
             fl = R.choice(plat) | R.choice(force) | (W.PATHNAME if (p in ppats or R.random() < 0.5) else 0)
             fl |= gen.random_flags(R, [W.EXTMATCH, W.EXTMATCH, W.GLOBSTAR, W.DOTMATCH, W.REALPATH, W.MATCHBASE], 0.4)
             cases.append((p, streams.reachable(fl), R.random() < 0.25 and all(ord(c) < 256 for c in p)))
+        for p in gen.win_drive_patterns(3 if quick else 4):
+            for extra in (0, W.CASE, W.MATCHBASE | W.REALPATH):
+                cases.append((p, W.FORCEWIN | W.PATHNAME | W.EXTMATCH | extra, False))
+        for p in gen.token_sequences(3 if quick else 4):
+            cases.append((p, W.FORCEWIN | W.PATHNAME | W.EXTMATCH | W.MATCHBASE | W.GLOBSTAR, False))
         streams.k1(sr, drv, cases)
-        sr.note = 'K1 regex text under {CASE,IGNORECASE}x{FORCEWIN,FORCEUNIX}, fn and glob mode, str and bytes, drive/UNC shapes'
+        sr.note = ('K1 regex text under {CASE,IGNORECASE}x{FORCEWIN,FORCEUNIX}, fn and glob mode, str and bytes; every drive/UNC/device '
+                   'shape of <= 3/4 components; parser-state token sequences under FORCEWIN|MATCHBASE')
     ck.stream('K1-parse-text', s_k1)
 
     def s_allci(sr):
@@ -117,6 +123,23 @@ def run(ck: Check) -> int:
                                               {'api': 'fnmatch', 'pattern': p, 'name': x, 'flags': both}, bool(m4.match(x)), bool(m3.match(x))), None)
             except common.CallTimeout:
                 continue
+            # ---- case-sensitive mode: literal text matches only its exact spelling
+            lit = ''.join(R.choice('abAB.x-') for _ in range(R.randint(1, 5)))
+            for base2 in (F.FORCEUNIX, F.FORCEWIN):
+                for cm2 in (0, F.CASE, F.IGNORECASE, F.CASE | F.IGNORECASE):
+                    ci2 = not (cm2 & F.CASE) and (bool(cm2 & F.IGNORECASE) or base2 == F.FORCEWIN)
+                    other = swap_ascii(lit)
+                    if other == lit:
+                        continue
+                    got = F.fnmatch(other, F.escape(lit), flags=base2 | cm2)
+                    sr.evaluations += 1
+                    if bool(got) != ci2:
+                        ck.report(Failing(f'literal {lit!r} vs {other!r}: matched={bool(got)} but the case mode says case-insensitive={ci2}',
+                                          {'api': 'fnmatch', 'pattern': F.escape(lit), 'name': other, 'flags': base2 | cm2}, ci2, bool(got)), None)
+                    got2 = G.globmatch('d/' + other, 'd/' + G.escape(lit, unix=True), flags=(G.FORCEUNIX if base2 == F.FORCEUNIX else G.FORCEWIN) | cm2)
+                    if bool(got2) != ci2:
+                        ck.report(Failing(f'glob literal {lit!r} vs {other!r}: matched={bool(got2)}, case-insensitive={ci2}',
+                                          {'api': 'globmatch', 'pattern': 'd/' + lit, 'name': 'd/' + other, 'flags': cm2}, ci2, bool(got2)), None)
             sr.distinct += 1
             # ---- Windows rules on paths: separators interchangeable; equals Unix+IGNORECASE on the normalised name
             q = ppats[k % len(ppats)]
@@ -133,6 +156,14 @@ def run(ck: Check) -> int:
                         if rw != ru:
                             ck.report(Failing(f'FORCEWIN on {x!r} differs from Unix+IGNORECASE on the normalised name for {q!r}',
                                               {'api': 'globmatch', 'pattern': q, 'name': x, 'flags': gfl}, ru, rw), None)
+                        # an escaped backslash in the pattern is a separator: same answers as `/`
+                        if '/' in q and '[' not in q and '(' not in q:
+                            for extra in (0, G.MATCHBASE, G.MATCHBASE | G.GLOBSTAR):
+                                a1 = bool(G.globmatch('x/' + x, q, flags=gfl | G.FORCEWIN | extra))
+                                a2 = bool(G.globmatch('x/' + x, q.replace('/', '\\\\'), flags=gfl | G.FORCEWIN | extra))
+                                if a1 != a2:
+                                    ck.report(Failing(f'FORCEWIN: pattern {q!r} and its escaped-backslash spelling differ on {"x/" + x!r}',
+                                                      {'api': 'globmatch', 'pattern': q.replace('/', '\\\\'), 'name': 'x/' + x, 'flags': gfl | G.FORCEWIN | extra}, a1, a2), None)
                         if rw != bool(mw.match(x.replace('/', '\\'))):
                             ck.report(Failing(f'FORCEWIN distinguishes separator spellings of {x!r} for {q!r}',
                                               {'api': 'globmatch', 'pattern': q, 'name': x, 'flags': gfl}, rw, not rw), None)
